@@ -5,6 +5,7 @@ import MdIt.Props.C05Tabs
 #check @MdIt.Pipeline.doc_boundaries_all
 #check @MdIt.Pipeline.doc_ranges_ok_all
 #check @MdIt.Pipeline.doc_text_faithful_all
+#check @MdIt.Pipeline.doc_special_markup_all
 #check @MdIt.Pipeline.afterBlocks_postBd
 #check @MdIt.Pipeline.afterBlocks_nodeOkX
 #check @MdIt.Block.inlSpec2_ptabs
@@ -23,6 +24,7 @@ import MdIt.Props.C05Tabs
 #print axioms MdIt.Pipeline.doc_boundaries_all
 #print axioms MdIt.Pipeline.doc_ranges_ok_all
 #print axioms MdIt.Pipeline.doc_text_faithful_all
+#print axioms MdIt.Pipeline.doc_special_markup_all
 #print axioms MdIt.Pipeline.afterBlocks_postBd
 #print axioms MdIt.Pipeline.afterBlocks_nodeOkX
 #print axioms MdIt.Block.inlSpec2_ptabs
